@@ -1,6 +1,6 @@
 (* C02 — Errors in prefixes of valid programs are partial, so the REPL keeps
    reading.  Property theorems only; every proof is [exact <lemma>]. *)
-From verif Require Import lib.Base lib.Utf8 model.C01_Parse model.C02 proofs.C02_proofs.
+From verif Require Import lib.Base lib.Utf8 model.C01_Parse model.C02 proofs.C02_proofs proofs.C01_sweep.
 
 (* The oracle on the observed errors / Enter decisions is sound. *)
 Theorem C02_oracle_sound : forall src full pre,
@@ -28,3 +28,25 @@ Theorem C02_enter_agrees : forall is_print src fuel t es,
   (isSyntaxComplete src es = false <-> exists e, In e es /\ e_partial e = true).
 Proof. exact enter_agrees. Qed.
 Print Assumptions C02_enter_agrees.
+
+(* Prefixes of valid programs, bounded version: for every text of length <= 3
+   over 25 metacharacters and of length <= 4 over 16 bytes (incl. a two-byte
+   rune) that the model parses without errors, every proper prefix cut at a
+   rune boundary has only partial errors, each starting at the end of the
+   prefix, and isSyntaxComplete is false when there is one.  The unbounded
+   statement is C01_sweep.prefix_errors_partial_statement. *)
+Theorem C02_prefix_errors_partial_partial : forall s,
+  in_sweep s -> errs_of s = Some [] -> valid s = true ->
+  forall p, In p (proper_prefixes s) ->
+  exists es, errs_of p = Some es
+    /\ (forall e, In e es -> e_partial e = true /\ e_from e = length p)
+    /\ (es <> [] -> isSyntaxComplete p es = false).
+Proof. exact sweep_prefix_prop. Qed.
+Print Assumptions C02_prefix_errors_partial_partial.
+
+(* non-vacuity: the prefix "a |" of the valid "a | b" has exactly one error,
+   partial, at its end *)
+Example C02_example :
+  errs_of [97; 32; 124; 32; 98]%N = Some []
+  /\ errs_of [97; 32; 124]%N = Some [E 3 3 errShouldBeForm true].
+Proof. exact example_prefix. Qed.
